@@ -331,10 +331,11 @@ Definition e2e_read (exp_n imp_c : nat -> option nat) (r : nat) : option nat :=
 
 (* The node validates a written array against the previous value of the parameter
    (dispatcher: datatype.validate(value, previous=pobj.value); ArrayOf.validate: when previous is not empty
-   the elements are paired with zip(value, previous)), so the result has the shorter length.
-   Elements are opaque here (their own validation is the element datatype's business). *)
+   it is padded with None up to the length of the new value and the elements are paired with
+   zip(value, previous)).  Elements are opaque here (their own validation is the element datatype's business).
+   Before repository commit 672d284 there was no padding and the result was cut to the previous length. *)
 Definition array_validate {A} (prev v : list A) : list A :=
   match prev with
   | [] => v
-  | _ => map fst (combine v prev)
+  | _ => map fst (combine v (map Some prev ++ repeat None (length v - length prev)))
   end.
